@@ -230,6 +230,15 @@ def check_weight_gradient(ctx, est):
     defs = {s.targets[0].id: s for s in ast.walk(f) if isinstance(s, ast.Assign) and len(s.targets) == 1 and isinstance(s.targets[0], ast.Name)}
     ds = [s for s in defs.values() if isinstance(s.value, ast.Call) and U(s.value.func) == 'Dataset']
     ok = len(ds) == 1 and [U(a) for a in ds[0].value.args] == ['self.public_data.df', 'self.public_data.domain', w]
+    if not ok and len(ds) == 1 and len(ds[0].value.args) == 3:
+        # the candidate may be built on a column projection of the public data (same records, fewer columns): P.df, P.domain with
+        # P = self.public_data.project(...) defined in the enclosing method; a projection that misses a measured attribute raises
+        a_df, a_dom, a_w = ds[0].value.args
+        if isinstance(a_df, ast.Attribute) and a_df.attr == 'df' and isinstance(a_dom, ast.Attribute) and a_dom.attr == 'domain' \
+                and isinstance(a_df.value, ast.Name) and U(a_df.value) == U(a_dom.value) and U(a_w) == w:
+            P = a_df.value.id
+            pdefs = [s_ for s_ in ast.walk(est.node) if isinstance(s_, ast.Assign) and len(s_.targets) == 1 and U(s_.targets[0]) == P]
+            ok = len(pdefs) == 1 and isinstance(pdefs[0].value, ast.Call) and U(pdefs[0].value.func) == 'self.public_data.project'
     ctx.ob('gradient-form', est, ds[0] if ds else f, ok, 'candidate dataset = public records and domain with the candidate weights `%s`' % w)
     est_name = ds[0].targets[0].id if ds else None
     loops = [s for s in f.body if isinstance(s, ast.For)]
